@@ -2,7 +2,7 @@
    goroutines' access lists excludes data races and makes the fan-out deterministic under EVERY
    interleaving that runs all goroutines to completion.
    Memories are functions: they are compared pointwise ([meq]); no extensionality axiom. *)
-From Coq Require Import List String Bool Arith Lia.
+From Coq Require Import List String Bool Arith ZArith Lia.
 From Servitor Require Import ForkJoin.
 Import ListNotations.
 
@@ -499,3 +499,33 @@ Print Assumptions conflict_covers_fact.
 Print Assumptions fj_check_pairs_fact.
 Print Assumptions fj_no_race_fact.
 Print Assumptions fj_deterministic_fact.
+
+(* ---------------------------------------------------------------- the join *)
+Lemma all_one_sum (ds : list nat) : forallb (Nat.eqb 1) ds = true -> list_sum ds = List.length ds.
+Proof.
+  induction ds as [|d r IH]; intros H; [reflexivity|].
+  change (forallb (Nat.eqb 1) (d :: r)) with (Nat.eqb 1 d && forallb (Nat.eqb 1) r) in H.
+  apply andb_prop in H. destruct H as [Hd Hr]. apply Nat.eqb_eq in Hd. subst d. specialize (IH Hr).
+  change (list_sum (1 :: r)) with (1 + list_sum r). change (List.length (1 :: r)) with (S (List.length r)). lia.
+Qed.
+
+Lemma sum_le (ks ds : list nat) : Forall2 le ks ds -> list_sum ks <= list_sum ds.
+Proof. intros H. induction H as [|k d ks' ds' Hkd _ IH]; simpl; lia. Qed.
+
+(* every goroutine calls Done exactly once and as many were Added: the counter is 0 when all have finished (Wait returns)
+   and is never negative at any point of any interleaving (Done never panics) *)
+Theorem join_ok_completes_fact : forall (added : nat) (ds : list nat),
+  join_ok added ds = true -> wg_counter added ds = 0%Z /\ wg_never_negative added ds.
+Proof.
+  intros added ds H. unfold join_ok in H. apply andb_prop in H. destruct H as [Ha Hd].
+  apply Nat.eqb_eq in Ha. pose proof (all_one_sum ds Hd) as Hs. split.
+  - unfold wg_counter. rewrite Hs, Ha. lia.
+  - intros ks Hk. pose proof (sum_le ks ds Hk). lia.
+Qed.
+
+(* and the two ways it goes wrong: a goroutine that never calls Done leaves the counter positive (Wait hangs), one that calls it
+   twice drives it negative *)
+Example join_hangs_example : wg_counter 2 [1; 0] = 1%Z. Proof. reflexivity. Qed.
+Example join_panics_example : ~ wg_never_negative 2 [1; 2].
+Proof. intros H. specialize (H [1; 2]). assert (F : Forall2 le [1; 2] [1; 2]) by (repeat constructor). specialize (H F). cbn in H. lia. Qed.
+Print Assumptions join_ok_completes_fact.
